@@ -1,8 +1,10 @@
 (* C02: the boundary test of Grid.points_not_zero AS THE CODE DOES IT - with a tolerance.
-   Model/StdCombi.v (masked / on_boundary) decides "mesh node lies on the boundary" by exact equality. The code uses
+   Model/StdCombi.v (masked / on_boundary) decides "mesh node lies on the boundary" by exact equality. The code used
        np.isclose(points, a), np.isclose(points, b)       |p_d - bound_d| <= atol + rtol * |bound_d|   (numpy: 1e-8, 1e-5)
-   per dimension (current tree), and, in the proposed repair fixes/C02-points-not-zero-domain-relative-tolerance.patch,
-       |p_d - bound_d| <= 1e-8 * |b_d - a_d|.
+   per dimension up to /repo 5e45293 (cl_numpy; finding C02-isclose-far-box, fixed) and uses since then (repair
+   fixes/C02-points-not-zero-domain-relative-tolerance.patch, applied as 5e45293)
+       |p_d - bound_d| <= 1e-8 * |b_d - a_d|              (cl_domain; the same policy as the 1D tests touches_lower_boundary /
+                                                           touches_upper_boundary of fixes/C08-boundary-tests-domain-relative.patch).
    Both are instances of a per-dimension closeness test  cl lo hi p bound.  Definitions only; Proofs/StdTol.v shows when the
    tolerant mask equals the exact one on every mesh node (then every C02 theorem transfers) and refutes nodal exactness of the
    numpy variant on a box far from the origin. *)
